@@ -5,3 +5,4 @@ import CmGen.Leaves
 import CmGen.Optimiser
 import CmGen.StrHelpers
 import CmGen.CliSrc
+import CmGen.ParserSeq
